@@ -64,7 +64,8 @@ type Prop struct {
 	ID      string
 	Rule    string
 	Gens    []Gen
-	Run     func(o *Oracle, data json.RawMessage) Outcome
+	Run     func(o *Oracle, data json.RawMessage, oc *Outcome)
+	Classify func(data json.RawMessage) []string // classes of an input, for cases whose worker died
 	Cases   func(tier string) int
 	Timeout func(tier string) time.Duration
 	Wall    func(tier string) time.Duration
@@ -136,7 +137,8 @@ func runCaseRecover(p *Prop, orc *Oracle, data json.RawMessage) (oc Outcome) {
 		}
 		oc.OracleCalls = orc.Calls - before
 	}()
-	return p.Run(orc, data)
+	p.Run(orc, data, &oc)
+	return oc
 }
 
 // panicSite returns the innermost frames of the panicking goroutine that lie in /repo.
@@ -303,6 +305,7 @@ type KnownFinding struct {
 	Class    string `json:"class"`
 	Entry    string `json:"entry"`
 	Check    string `json:"check"`
+	Detail   string `json:"detail,omitempty"` // substring the failure detail must contain
 	What     string `json:"what"`
 	Commit   string `json:"commit,omitempty"`
 }
@@ -330,7 +333,18 @@ func loadKnown(path, prop string) []KnownFinding {
 }
 
 func (k KnownFinding) matches(oc *Outcome, f Failure) bool {
-	if k.Check != "" && k.Check != f.Check {
+	if k.Check != "" {
+		ok := false
+		for _, c := range strings.Split(k.Check, "|") {
+			if c == f.Check {
+				ok = true
+			}
+		}
+		if !ok {
+			return false
+		}
+	}
+	if k.Detail != "" && !strings.Contains(f.Detail, k.Detail) {
 		return false
 	}
 	if k.Entry != "" && !strings.Contains(f.Entry, k.Entry) {
@@ -491,6 +505,9 @@ func parentMain(propID, tier string, seed uint64, outPath string, only *WireCase
 					}
 				}
 				oc, ok := w.runOn(wc, timeout)
+				if !ok && p.Classify != nil {
+					oc.Classes = p.Classify(wc.Data)
+				}
 				if !ok {
 					w.kill()
 					w = nil
